@@ -156,6 +156,24 @@ def chk_refusals(seed_i, ei, version):
     ek = must_work(lambda: wo.node_extended_keys(child), "node_extended_keys")
     if ek is None:
         return viols, 0
+    # duplicates of a derived watch-only node, and of the wallet itself, show the same public data (and still no private data)
+    from .. import hdscen
+    base_view = must_work(lambda: public_view(wo, child), "public_view")
+    refn = hd.derive(hd.neuter(node), [0, 1])
+    rv = ref_view(refn, testnet, [0, 1], None)
+    for how, c in hdscen.clones(child):
+        st, pv = attempt(lambda: public_view(wo, c))
+        if st != "ok" or pv != base_view or any(pv.get(k) != rv[k] for k in rv):
+            viols.append(V("%s:clone:node:%s:%s:differs" % (P, how, name), "%s of the derived watch-only node M/0/1 (%s at %s) shows other public data" % (how, name, EXPORTS[ei][0]),
+                           str(pv)[:200], str(base_view)[:200]))
+        must_raise(lambda: c.extended_private_key(), "extended_private_key(clone)")
+    for how, w2 in hdscen.clones(wo):
+        st, pv = attempt(lambda: public_view(w2, w2.master.derive_path([0, 1])))
+        if st != "ok" or pv != base_view:
+            viols.append(V("%s:clone:wallet:%s:%s:differs" % (P, how, name), "%s of the watch-only wallet (%s at %s) derives other public data" % (how, name, EXPORTS[ei][0]),
+                           str(pv)[:200], str(base_view)[:200]))
+        if getattr(w2, "watch_only", True) is not True:
+            viols.append(V("%s:clone:wallet:%s:watch_only-lost" % (P, how), "%s of a watch-only wallet reports watch_only=%r" % (how, w2.watch_only)))
     if ek.get("prv") is not None:
         viols.append(V("%s:node_extended_keys:%s:prv-present" % (P, name), "prv = %r" % ek["prv"]))
     must_raise(lambda: wo.node_extended_private_key(child), "node_extended_private_key")
